@@ -3,6 +3,8 @@ package work
 import (
 	"bytes"
 	"crypto"
+	"crypto/sha256"
+	"crypto/sha512"
 	"fmt"
 	"math/big"
 	"strings"
@@ -522,7 +524,16 @@ func c19Targets() []c19Target {
 			return c19Res{ok: true, reenc: mustMarshal(s.MarshalBinary())}
 		}})
 	add(c19Target{name: "sr25519.PublicKey.UnmarshalBinary", size: 32, neutral: zeros32, canonical: true,
-		gen: func(c *c19Ctx) []byte { return mustMarshal(srKP(c).PublicKey().MarshalBinary()) },
+		gen: func(c *c19Ctx) []byte {
+			kp := srKP(c)
+			c.aux["msg"] = c.g.Msg()
+			sig, err := kp.Sign(NewDetReader(uint64(c.g.T.W(1<<30))), sr25519.NewSigningContext([]byte("c19")).NewTranscriptBytes(c.aux["msg"]))
+			if err != nil {
+				panic(err)
+			}
+			c.aux["sig"] = mustMarshal(sig.MarshalBinary())
+			return mustMarshal(kp.PublicKey().MarshalBinary())
+		},
 		try: func(c *c19Ctx, prev, b []byte) c19Res {
 			var pk sr25519.PublicKey
 			if err := pk.UnmarshalBinary(prev); err != nil {
@@ -530,9 +541,29 @@ func c19Targets() []c19Target {
 			}
 			err := pk.UnmarshalBinary(b)
 			enc := mustMarshal(pk.MarshalBinary())
-			// a reset key must refuse to verify rather than crash
-			var s sr25519.Signature
-			_ = pk.Verify(sr25519.NewSigningContext(nil).NewTranscriptBytes(nil), &s)
+			// a key whose decoding failed (the neutral "nil key"), or a zero value, must refuse to verify rather than
+			// crash - with everything else about the call valid: a well-formed signature on a well-formed transcript
+			sig, serr := sr25519.NewSignatureFromBytes(c.aux["sig"])
+			if serr != nil {
+				panic("harness: sig")
+			}
+			tr := sr25519.NewSigningContext([]byte("c19")).NewTranscriptBytes(c.aux["msg"])
+			v1 := pk.Verify(tr, sig)
+			bv := sr25519.NewBatchVerifier()
+			bv.Add(&pk, tr, sig)
+			v2, _ := bv.Verify(det())
+			var zero sr25519.PublicKey
+			v3 := zero.Verify(tr, sig)
+			var zs sr25519.Signature
+			v4 := pk.Verify(tr, &zs)
+			switch {
+			case v1 != v2:
+				return c19Res{ok: err == nil, bad: "single and batch verification with the decoded key disagree"}
+			case err != nil && v1:
+				return c19Res{bad: "a key whose decoding failed verifies a signature"}
+			case v3 || v4:
+				return c19Res{ok: err == nil, bad: "a zero-value key or signature verifies"}
+			}
 			return c19Res{ok: err == nil, reenc: enc, after: enc, hasAfter: true}
 		}})
 	add(c19Target{name: "sr25519.NewPublicKeyFromBytes", size: 32, canonical: true,
@@ -693,12 +724,34 @@ func c19Targets() []c19Target {
 	add(c19Target{name: "sr25519.SigningContext(context,message)", anyLength: true, size: 40,
 		gen: func(c *c19Ctx) []byte { return c.g.Bytes(40) },
 		try: func(c *c19Ctx, prev, b []byte) c19Res {
+			// one context, all three constructors, in an order the input picks; afterwards the context is what a
+			// fresh one for the same bytes is (a transcript constructor does not consume or change its context)
 			sc := sr25519.NewSigningContext(b)
-			_ = sc.NewTranscriptBytes(prev)
-			_ = sc.NewTranscriptBytes(b)
-			x := sha3.NewShake128()
-			x.Write(b)
-			_ = sc.NewTranscriptXOF(x)
+			mk := []func(){
+				func() { _ = sc.NewTranscriptBytes(prev) },
+				func() { _ = sc.NewTranscriptBytes(b) },
+				func() { x := sha3.NewShake128(); x.Write(b); _ = sc.NewTranscriptXOF(x) },
+				func() { h := sha512.New(); h.Write(b); _ = sc.NewTranscriptHash(h) },
+				func() { h := sha256.New(); h.Write(prev); _ = sc.NewTranscriptHash(h) },
+			}
+			rot := len(b)
+			if len(b) > 0 {
+				rot += int(b[0])
+			}
+			for i := range mk {
+				mk[(i+rot)%len(mk)]()
+			}
+			kp, err := sr25519.GenerateKeyPair(det())
+			if err != nil {
+				return c19Res{bad: "GenerateKeyPair failed on a working reader"}
+			}
+			sig, err := kp.Sign(det(), sc.NewTranscriptBytes(prev))
+			if err != nil {
+				return c19Res{bad: "Sign failed on a working reader"}
+			}
+			if !kp.PublicKey().Verify(sr25519.NewSigningContext(b).NewTranscriptBytes(prev), sig) {
+				return c19Res{bad: "a signature made on a context that produced other transcripts before does not verify on a fresh context for the same bytes"}
+			}
 			return c19Res{ok: true}
 		}})
 	return append(ts, c19MoreTargets()...)
@@ -864,6 +917,11 @@ func runC19(e *Env, r *core.Run) {
 		if pan {
 			// a panic on the untouched artifact is a panic on externally supplied bytes like any other
 			r.Fail("undocumented-panic", tg.name+"/none", "%s panicked on a valid, untouched artifact %x: %s", tg.name, a, pmsg)
+			return
+		}
+		if res.bad != "" {
+			// the entry point's own cross-checks fail on a valid artifact
+			r.Fail("inconsistent-result", tg.name+"/none", "%s on a valid, untouched artifact %x: %s", tg.name, a, res.bad)
 			return
 		}
 		if !res.ok {
